@@ -64,6 +64,7 @@ type c17Row struct {
 	long, short, valname string
 	choices              bool
 	namespaced           bool // the row sits in a group with a namespace (the printed long name is longer than the declared one)
+	inHiddenParent       bool // that group is itself nested in a hidden group (the library prints such a group: it must then also measure it)
 }
 
 func c17Script(s string, script int) string {
@@ -150,6 +151,9 @@ func c17Build(key string, row c17Row, onCmd bool, wide bool, posVariant int, pat
 		first = w
 	}
 	nsGroup := &decl.Group{Field: "NsG", Name: "Namespaced", Namespace: "namespace-of-group", Opts: []*decl.Opt{u}}
+	if row.inHiddenParent {
+		nsGroup = &decl.Group{Field: "HidP", Name: "HiddenParent", Hidden: true, Groups: []*decl.Group{nsGroup}}
+	}
 	if onCmd {
 		top.Opts = []*decl.Opt{first}
 		cmd.Opts = []*decl.Opt{{Field: "C", Long: "copt", Type: decl.TBool, Desc: c17Desc("Cz", []int{9}, 0, 0)}, u}
@@ -216,11 +220,12 @@ func init() {
 				}
 				for _, vn := range []string{"", "VAL", "VÄLÜ"} {
 					for _, ch := range []bool{false, true} {
-						rows = append(rows, c17Row{c17Script(ll, script), sh, vn, ch, false})
+						rows = append(rows, c17Row{c17Script(ll, script), sh, vn, ch, false, false})
 					}
 				}
 				if ll != "" {
-					rows = append(rows, c17Row{c17Script(ll, script), sh, "", false, true})
+					rows = append(rows, c17Row{c17Script(ll, script), sh, "", false, true, false})
+					rows = append(rows, c17Row{c17Script(ll, script), sh, "", false, true, true})
 				}
 			}
 		}
@@ -249,7 +254,7 @@ func init() {
 		row := rows[ri]
 		key := fmt.Sprint(ri, onCmd, wide, posVariant, pi, dscript, lf)
 		c.Describe(func() interface{} {
-			return map[string]interface{}{"row": fmt.Sprintf("short=%q long=%q value-name=%q choices=%v in-namespaced-group=%v", row.short, row.long, row.valname, row.choices, row.namespaced), "on_command": onCmd, "wide_neighbour": wide,
+			return map[string]interface{}{"row": fmt.Sprintf("short=%q long=%q value-name=%q choices=%v in-namespaced-group=%v nested-in-hidden-group=%v", row.short, row.long, row.valname, row.choices, row.namespaced, row.inHiddenParent), "on_command": onCmd, "wide_neighbour": wide,
 				"positional": posVariant, "description": c17Desc("Qx", pat, dscript, lf), "width": width}
 		})
 		cb, err := c17Build(key, row, onCmd, wide, posVariant, pat, dscript, lf)
@@ -402,7 +407,7 @@ func init() {
 		ShardDepth: 4,
 		Body:       body,
 		Setup:      c17Setup,
-		Rule: "row under test: long name of 0/1/5/20 characters in {ASCII, 2-byte, 3-byte} script x short name {none, ASCII, é} x value name {none, ASCII, non-ASCII} x choices?, plus every named row inside a group with a long namespace (153 rows), last of its block, on the parser or on an active command (indented) " +
+		Rule: "row under test: long name of 0/1/5/20 characters in {ASCII, 2-byte, 3-byte} script x short name {none, ASCII, é} x value name {none, ASCII, non-ASCII} x choices?, plus every named row inside a group with a long namespace, alone and nested in a hidden group (180 rows), last of its block, on the parser or on an active command (indented) " +
 			"x neighbour row {widest of all, 1-character} x described positional {none, ASCII name, non-ASCII name} x description = marker word + word-length pattern (8 quick / 16 thorough patterns over lengths 1,5,9,10,11,25,40) in {ASCII, 2-byte, 3-byte} script x embedded line break {none, after marker, after first word} " +
 			"x every terminal width 1..130 (quick) / 1..300 (thorough), set with TIOCSWINSZ on a real pty whose slave is fd 0 (the library's own ioctl reads it); oracle: no panic; all descriptions (found through their marker words) start in one character column; " +
 			"every continuation line is exactly that many blanks + text; all lines valid UTF-8; joining hyphen breaks gives back the original word sequence; no description line longer than the width while width - column >= 10; distinct = distinct (column, width asserted?, script, line count)",
